@@ -514,7 +514,7 @@ def match_with_profile(call, toks, body, tables, has_pre):
 
 def drop_matches(s, rules):
     for kind, lit in rules:
-        if (kind == "exact" and s == lit) or (kind == "prefix" and s.startswith(lit)):
+        if (kind == "exact" and s == lit) or (kind == "pref" and s.startswith(lit)):
             return True
     return False
 
